@@ -1393,6 +1393,25 @@ where
         self.probe.clear();
 
         runtime.notify(Notification::Idle);
+
+        // From now on nothing makes us talk to anybody until somebody
+        // reaches out to us: every periodic task just got cancelled. If
+        // we've been asked to keep trying the members we consider down,
+        // do it one last time before going quiet. Otherwise members that
+        // all lose each other at once (say, everybody renewing their
+        // identity in the same round trip after a partition heals, so
+        // that every datagram in flight is addressed to an identity that
+        // doesn't exist anymore) would remain idle forever, each waiting
+        // for the others
+        let num_members = self
+            .config
+            .periodic_announce_to_down_members
+            .as_ref()
+            .map(|params| params.num_members.get());
+        if let Some(num_members) = num_members {
+            // Best-effort: going idle cannot fail
+            let _ignored = self.announce_to_down(num_members, &mut runtime);
+        }
     }
 
     fn become_undead(&mut self, mut runtime: impl Runtime<T>) {
